@@ -36,6 +36,7 @@ from exactly_lib.symbol.sdv_structure import SymbolReference
 from exactly_lib.test_case import test_case_doc
 from exactly_lib.test_case.hard_error import HardErrorException
 from exactly_lib.test_case.phases.act.actor import ActionToCheck, Actor, ParseException
+from exactly_lib.test_case.phases.act.adv_w_validation import AdvWValidation
 from exactly_lib.test_case.phases.act.instruction import ActPhaseInstruction
 from exactly_lib.test_case.phases.assert_ import AssertPhaseInstruction
 from exactly_lib.test_case.phases.before_assert import BeforeAssertPhaseInstruction
@@ -166,11 +167,35 @@ class SetupStub(SetupPhaseInstruction):
         return _svh(self.plan.at(('setup', 'pre', self.pos), environment))
 
     def main(self, environment, settings, os_services, settings_builder):
-        return _sh(self.plan.at(('setup', 'main', self.pos), environment, settings=settings,
-                                settings_builder=settings_builder, os_services=os_services))
+        kind = self.plan.at(('setup', 'main', self.pos), environment, settings=settings,
+                            settings_builder=settings_builder, os_services=os_services)
+        if self.pos == 0 and kind == OK:
+            settings_builder.stdin = StdinStub(self.plan)
+        return _sh(kind)
 
     def validate_post_setup(self, environment):
         return _svh(self.plan.at(('setup', 'post', self.pos), environment))
+
+
+class StdinStub(AdvWValidation):
+    """The stdin of the action to check, as stored in the settings by the first setup stub:
+    its validation is the step act/validate-exe-input (cell ('act', 'exe-input', 0))."""
+
+    def __init__(self, plan: Plan):
+        self.plan = plan
+
+    def validate(self):
+        kind = self.plan.at(('act', 'exe-input', 0))
+        if kind == OK:
+            return None
+        if kind == HARD:
+            return _text('injected hard error')
+        if kind == HARD_EXC:
+            raise HardErrorException(_text('injected hard error exception'))
+        raise InjectedError('injected exception')
+
+    def resolve(self, environment):
+        return None  # the stub action to check reads no stdin
 
 
 class BeforeAssertStub(BeforeAssertPhaseInstruction):
